@@ -14,7 +14,10 @@
    The unrepaired versions are kept as calc_chunk_v0 / find_lids_gen false (…_v0).
    NOT modelled (only exercised end to end by the correspondence run): DocPos packing, GroupDocsOffsets,
    DocsReader.ReadDocs, the position blocks of the sealed index, zstd: a fraction's table entry carries its
-   document directly. A document is represented by (document number >= 1, length in bytes). *)
+   document directly. A document is represented by (document number >= 1, length in bytes).
+   The store is quiescent while a request runs (no concurrent ingest, sealing or deletion: properties C09/C15);
+   the parallel per-fraction fetches of fetchDocsAsync are modelled sequentially (their results are combined
+   by position, the first error wins). *)
 From Coq Require Export List Bool Arith NArith FMapPositive.
 From Coq Require Import Sorting.Mergesort Orders.
 Export ListNotations.
